@@ -9,5 +9,8 @@ int ssw_snprintf4(char *buf, size_t size, const char *fmt, double b, double d, d
 #include "json.contracts.h"
 #include "ssw_stubs.h"
 #ifdef SSW_CBMC
+#ifdef VERIF_JSON_EMPTY
+void h_decoder_result_json_empty(void) { decoder_t *d; double s; int a; decoder_result_json(d, s, a); VERIF_CANARY(); }
+#endif
 void h_format_seg(void) { char *o; int l; seg_iter_t *s; double u; int f; logmath_t *lm; format_seg(o, l, s, u, f, lm); VERIF_CANARY(); }
 #endif
